@@ -138,7 +138,8 @@ class TU:
         os.makedirs(CACHE, exist_ok=True)
         dg = _digest(tree, rel, self.text)
         cp = os.path.join(CACHE, "%s.%s.json" % (rel.replace("/", "_"), dg))
-        if os.path.exists(cp):
+        mutated = self.full_rel in tree.overlay  # self-test variant: never cached
+        if os.path.exists(cp) and not mutated:
             with open(cp) as f:
                 data = json.load(f)
         else:
@@ -174,10 +175,11 @@ class TU:
                 if m and not m.group(1).startswith("__"):
                     mt[m.group(1)] = (m.group(2), m.group(3))
             data = {"funcs": main_funcs, "decls": typedefs, "macros": mt}
-            tmp = cp + ".tmp%d" % os.getpid()
-            with open(tmp, "w") as f:
-                json.dump(data, f)
-            os.replace(tmp, cp)
+            if not mutated:
+                tmp = cp + ".tmp%d" % os.getpid()
+                with open(tmp, "w") as f:
+                    json.dump(data, f)
+                os.replace(tmp, cp)
         self.funcs = {d["name"]: d for d in data["funcs"]}
         self.decls = data["decls"]
         self.macros = data["macros"]
